@@ -140,6 +140,20 @@ def eval_construct(case):
         k = int(np.argmin(np.diff(md)))
         viol.append(V("m-scaled/function-strictly-increasing", f"m_scaled_func is not strictly increasing between "
                       f"p={dense[k]:.6g} and {dense[k + 1]:.6g} (nodes and two interior points of every cell)", case=case))
+    # the same function asked with whole-psi pressures of integer type (schedules are often integer arrays)
+    qi = np.unique(np.floor(dense).astype(np.int64))
+    qi = qi[(qi >= p_asc[0]) & (qi <= p_asc[-1])]
+    if len(qi):
+        try:
+            mi_ = np.asarray(fl.m_scaled_func(qi), dtype=float)
+            mf_ = np.asarray(fl.m_scaled_func(qi.astype(float)), dtype=float)
+        except Exception as e:  # noqa: BLE001
+            viol.append(V("m-scaled/query-type", f"m_scaled_func(int64 array) raises {type(e).__name__}: {e}", case=case))
+        else:
+            if mi_.shape != qi.shape or not np.allclose(mi_, mf_, rtol=1e-12, atol=0):
+                k = int(np.argmax(np.abs(mi_ - mf_))) if mi_.shape == qi.shape else 0
+                viol.append(V("m-scaled/query-type", f"m_scaled_func at the integer-typed pressure {int(qi[k])} gives {mi_.ravel()[k]!r}, at "
+                              f"the same pressure as float64 {mf_.ravel()[k]!r}", case=case))
     got = float(fl.m_scaled_func(p_i))
     if not abs(got - m_i) <= 1e-14 * abs(m_i):
         viol.append(V("m_i/consistent", f"m_scaled_func(p_i)={got!r} but reported m_i={m_i!r}", case=case))
